@@ -784,6 +784,22 @@ func checkEscapes(r *core.Run, p *core.Program, g *Grammar, rule string) {
 		return true
 	})
 	if sw == nil {
+		// the mapping may have been split off into a helper of the listener that returns the code point
+		inspectCalls(info, dec.Decl.Body, func(call *ast.CallExpr, c *types.Func) {
+			if sw != nil || c == nil || c.Pkg() != pkg.Types || c.Exported() {
+				return
+			}
+			if hd := p.FuncDecl(c); hd != nil && hd.Body != nil {
+				ast.Inspect(hd.Body, func(n ast.Node) bool {
+					if s, ok := n.(*ast.SwitchStmt); ok && sw == nil && s.Tag != nil {
+						sw = s
+					}
+					return true
+				})
+			}
+		})
+	}
+	if sw == nil {
 		r.Fail(rule, "ExitEscapeChar|switch over the escape character", dec.Decl.Pos(), "no switch found")
 		return
 	}
@@ -797,6 +813,11 @@ func checkEscapes(r *core.Run, p *core.Program, g *Grammar, rule string) {
 		for _, st := range c.Body {
 			if as, ok := st.(*ast.AssignStmt); ok && len(as.Rhs) == 1 {
 				if v, ok := constInt(info, as.Rhs[0]); ok {
+					to = rune(v)
+				}
+			}
+			if ret, ok := st.(*ast.ReturnStmt); ok && len(ret.Results) == 1 {
+				if v, ok := constInt(info, ret.Results[0]); ok {
 					to = rune(v)
 				}
 			}
@@ -885,8 +906,19 @@ func checkEscapes(r *core.Run, p *core.Program, g *Grammar, rule string) {
 		okFmt := false
 		ast.Inspect(ue.Decl.Body, func(n ast.Node) bool {
 			if e, ok := n.(ast.Expr); ok {
-				if cv := constVal(info, e); cv != nil && cv.Kind() == constant.String && (constant.StringVal(cv) == "%x" || constant.StringVal(cv) == "\\[%x]" || constant.StringVal(cv) == "%X") {
+				if cv := constVal(info, e); cv != nil && cv.Kind() == constant.String && (strings.Contains(constant.StringVal(cv), "%x") || strings.Contains(constant.StringVal(cv), "%X")) {
 					okFmt = true
+				}
+			}
+			// strconv.AppendUint / AppendInt / FormatUint / FormatInt with base 16 render the same digits
+			if call, ok := n.(*ast.CallExpr); ok {
+				if c := callee(info, call); c != nil && c.Pkg() != nil && c.Pkg().Path() == "strconv" && len(call.Args) >= 2 {
+					switch c.Name() {
+					case "AppendUint", "AppendInt", "FormatUint", "FormatInt":
+						if b, isC := constInt(info, call.Args[len(call.Args)-1]); isC && b == 16 {
+							okFmt = true
+						}
+					}
 				}
 			}
 			return true
